@@ -37,10 +37,17 @@ CONFIGS = {
     "asan": dict(tlsh=BASE_FEATURES, sim=[], toolchain="nightly", rustflags="-Zsanitizer=address",
                  target="x86_64-unknown-linux-gnu", profile={"opt-level": 2, "debug-assertions": "true"}),
     "miri_unsafe_serde": dict(tlsh=BASE_FEATURES + ["unsafe", "serde", "strict-parser"], sim=["serde"], rustflags=""),
+    # low-memory / table-less build for scenarios that otherwise only see the default features (C03, C12)
+    "lowmem": dict(tlsh=["std", "easy-functions", "opt-embedded-default", "opt-low-memory-buckets", "opt-low-memory-hex-str-decode-min-table",
+                         "opt-low-memory-hex-str-encode-min-table"], sim=[]),
+    "hooked_lowmem": dict(tlsh=BASE_FEATURES + ["opt-low-memory-buckets"], sim=["hooks"], rustflags="--cfg fast_tlsh_verif"),
+    "dbg_serde": dict(tlsh=BASE_FEATURES + ["serde", "serde-buffered", "strict-parser", "unsafe"], sim=["serde"],
+                      profile={"opt-level": 2, "debug-assertions": "true", "overflow-checks": "true"}),
     # C18: the simulator owns the global allocator
     "alloc_default": dict(tlsh=BASE_FEATURES, sim=["alloc_world"]),
     "alloc_plain": dict(tlsh=["std", "easy-functions"], sim=["alloc_world"]),
     "alloc_embedded": dict(tlsh=["std", "easy-functions", "opt-embedded-default", "opt-low-memory-buckets"], sim=["alloc_world"]),
+    "alloc_dbg": dict(tlsh=BASE_FEATURES, sim=["alloc_world"], profile={"opt-level": 2, "debug-assertions": "true", "overflow-checks": "true"}),
     "alloc_unsafe_minhex": dict(tlsh=BASE_FEATURES + ["unsafe", "opt-low-memory-hex-str-decode-min-table", "opt-low-memory-hex-str-encode-min-table"], sim=["alloc_world"]),
     # shuttle build: shadow manifest adds the shuttle dependency to fast-tlsh itself
     "shuttle": dict(tlsh=BASE_FEATURES, sim=["hooks", "shuttle"], rustflags="--cfg fast_tlsh_verif --cfg fast_tlsh_verif_shuttle",
@@ -52,6 +59,7 @@ CONFIGS = {
     "serde_buf_strict": dict(tlsh=BASE_FEATURES + ["serde", "serde-buffered", "strict-parser"], sim=["serde"]),
     "serde_unsafe": dict(tlsh=BASE_FEATURES + ["serde", "unsafe"], sim=["serde"]),
     "serde_plain": dict(tlsh=["std", "easy-functions", "serde", "serde-buffered"], sim=["serde"]),
+    "serde_all": dict(tlsh=BASE_FEATURES + ["serde", "serde-buffered", "strict-parser", "unsafe"], sim=["serde"]),
 }
 
 
@@ -507,9 +515,13 @@ def check_C12(ctx, tier, seed):
     if tier != "quick":
         big_jobs.append(side.submit(lambda: run_sim(ctx, b, ["hashfile-big", "--dir", scratch, "--variant", (seed + 2) % 5, "--total", 4224281216])[1]))
     sim_batch(ctx, vd, "default", b, "c12", n)
+    lb = build(ctx, "lowmem")
+    sim_batch(ctx, vd, "lowmem", lb, "c12", n // 4)
     for i in range(1 if tier == "quick" else 16):
         code, rep, err = run_sim(ctx, b, ["hashfile", "--dir", scratch, "--seed", seed + i])
         vd.add("default", rep)
+        code, rep, err = run_sim(ctx, lb, ["hashfile", "--dir", os.path.join(scratch, "lowmem"), "--seed", seed + i])
+        vd.add("lowmem", rep)
     for j in big_jobs:
         vd.add("default", j.result())
     if tier != "quick":
@@ -542,6 +554,9 @@ def check_C03(ctx, tier, seed):
     if tier != "quick":
         jobs.append(side.submit(lambda: run_sim(ctx, b, ["c03big", "--variant", (seed + 1) % 5, "--pattern", "a40e", "--seed", seed + 1, "--total", (1 << 31) + (1 << 29) + 77])[1]))
     sim_batch(ctx, vd, "default", b, "c03", n)
+    # the reduced-memory feature set (low-memory buckets, single tables, minimal hex tables): same histories, fewer of them
+    lb = build(ctx, "lowmem")
+    sim_batch(ctx, vd, "lowmem", lb, "c03", n // 3)
     for j in jobs:
         vd.add("default", j.result())
     vd.extra["components_real"] = ["Generator<T>::new/update/finalize_with_options/processed_len/clone for the five variants (public API only, no hook)"]
@@ -704,6 +719,14 @@ def check_C07(ctx, tier, seed):
         shuttle_runs(ctx, vd, shuttle_bin, 1_000 if quick else 50_000, 4 * NCPU)
     else:
         degraded.append("(b) shuttle races skipped: the shuttle build does not compile on this tree")
+    # states and streams only multi-GiB inputs produce, in two more configurations: the jump histories (model as oracle) on the
+    # low-memory-buckets build, and one real single slice > u32::MAX on the build with feature `unsafe`
+    hl = try_build(ctx, "hooked_lowmem")
+    side = ThreadPoolExecutor(max_workers=1)
+    big = side.submit(lambda: run_sim(ctx, bins["m_unsafe"], ["bigstream", "--variant", seed % 5, "--pattern", "00", "--seed", 1, "--single-slice", (1 << 32) + 1000])[1])
+    if hl:
+        sim_batch_procs(ctx, vd, "hooked_lowmem", hl, "c11", 15_000 if quick else 300_000)
+    vd.add("m_unsafe", big.result())
     if degraded:
         vd.extra["DEGRADED"] = degraded
         print("NOTE: C07 ran with reduced coverage: %s" % "; ".join(degraded), flush=True)
@@ -806,7 +829,7 @@ def alloc_world(ctx, vd, config, binary, procs, per_proc, hard):
                                                                          sum(r.get("violation_count", 0) for r in reps)))
 
 
-ALLOC_CONFIGS = ["alloc_default", "alloc_plain", "alloc_embedded", "alloc_unsafe_minhex"]
+ALLOC_CONFIGS = ["alloc_default", "alloc_plain", "alloc_embedded", "alloc_unsafe_minhex", "alloc_dbg"]
 
 
 def check_C18(ctx, tier, seed):
@@ -895,6 +918,18 @@ def check_C17(ctx, tier, seed):
             sim_batch_procs(ctx, vd, cfg, bins[cfg], sc, n, abort_engine="asan" if cfg.startswith("asan") else "native-abort", env=env)
     # states only multi-GiB inputs reach (bucket counts up to and past 2^31 / 2^32): the C11 jump histories in the
     # debug-assertion + overflow-check build (hooked: state seam H3)
+    # serde visitors under debug assertions / overflow checks with feature unsafe (false invariants abort there)
+    ds = try_build(ctx, "dbg_serde")
+    if ds:
+        for sc in ("c16", "c16mock"):
+            sim_batch_procs(ctx, vd, "dbg_serde", ds, sc, 40_000 * mult, abort_engine="native-abort")
+    # one real single slice longer than u32::MAX on the release build with feature unsafe (optimiser assumptions about lengths)
+    code_rep = run_sim(ctx, bins["rel_unsafe"], ["bigstream", "--variant", seed % 5, "--pattern", "00", "--seed", 1, "--single-slice", (1 << 32) + 1000], allow_abort=True)
+    if code_rep[1] is not None:
+        vd.add("rel_unsafe", code_rep[1])
+    else:
+        vd.add_violation("rel_unsafe", "c11big", {"class": "native-abort:single slice > u32::MAX", "index": 0, "engine": "native-abort", "detail": "process died (exit %s) on one update() call with 2^32+1000 bytes" % code_rep[0],
+                                                 "history": {"single_slice": (1 << 32) + 1000}, "argv": ["bigstream", "--variant", str(seed % 5), "--pattern", "00", "--seed", "1", "--single-slice", str((1 << 32) + 1000)]})
     hb = try_build(ctx, "hooked_dbg")
     if hb:
         sim_batch(ctx, vd, "hooked_dbg", hb, "c11", 15_000 * mult)
@@ -976,6 +1011,9 @@ def check_C11(ctx, tier, seed):
     # the bucket counts that only multi-GiB inputs produce
     sim_batch_procs(ctx, vd, "hooked", bins["hooked"], "c11", n)
     sim_batch_procs(ctx, vd, "hooked_dbg", bins["hooked_dbg"], "c11", n // 4)
+    hl = try_build(ctx, "hooked_lowmem")
+    if hl:
+        sim_batch_procs(ctx, vd, "hooked_lowmem", hl, "c11", n // 4)
     sim_batch(ctx, vd, "hooked", bins["hooked"], "c11small", n)
     sim_batch(ctx, vd, "hooked_dbg", bins["hooked_dbg"], "c11small", n // 4)
     vd.add("hooked", side_job.result())
@@ -1011,14 +1049,14 @@ def check_C11(ctx, tier, seed):
     return vd.finish()
 
 
-SERDE_CONFIGS = ["serde", "serde_strict", "serde_buf", "serde_buf_strict", "serde_unsafe", "serde_plain"]
+SERDE_CONFIGS = ["serde", "serde_strict", "serde_buf", "serde_buf_strict", "serde_unsafe", "serde_plain", "serde_all"]
 
 
 def check_C16(ctx, tier, seed):
     vd = Verdict(ctx, "C16", tier, seed, "exploration")
     bins = build_many(ctx, SERDE_CONFIGS)
     n = 400_000 if tier == "quick" else 10_000_000
-    per = max(3, NCPU // len(SERDE_CONFIGS))
+    per = max(2, NCPU // len(SERDE_CONFIGS))
     def one(cfg):
         sim_batch(ctx, vd, cfg, bins[cfg], "c16", n, threads=per)
         sim_batch(ctx, vd, cfg, bins[cfg], "c16mock", n, threads=per)
@@ -1034,7 +1072,7 @@ def check_C16(ctx, tier, seed):
     return vd.finish()
 
 
-SETUP_CONFIGS = ["default", "hooked", "hooked_dbg", "shuttle"] + SERDE_CONFIGS + MATRIX_QUICK + ALLOC_CONFIGS + ["dbg", "dbg_unsafe", "rel_unsafe", "dbg_plain"]
+SETUP_CONFIGS = ["default", "hooked", "hooked_dbg", "shuttle"] + SERDE_CONFIGS + MATRIX_QUICK + ALLOC_CONFIGS + ["dbg", "dbg_unsafe", "rel_unsafe", "dbg_plain", "lowmem", "hooked_lowmem", "dbg_serde"]
 
 CHECKS = {"C03": check_C03, "C07": check_C07, "C11": check_C11, "C12": check_C12, "C16": check_C16, "C17": check_C17, "C18": check_C18}
 
